@@ -313,12 +313,13 @@ int getpeername(int fd, struct sockaddr *addr, socklen_t *len)
 int close(int fd)
 {
   if(!isv(fd)) {
-    if(S.active && fd >= 0 && fd < VFD_BASE && fd > 2) S.foreign_closed.push_back(fd);
+    if(S.active && fd >= 0 && fd < VFD_BASE && fd > 2) { S.foreign_closed.push_back(fd); anomaly(20, fd); }
     return static_cast<int>(syscall(SYS_close, fd));
   }
   int err = setup(11, fd);
   auto it = S.opened.find(fd);
-  if(it == S.opened.end()) S.foreign_closed.push_back(fd); else it->second++;
+  if(it == S.opened.end()) { S.foreign_closed.push_back(fd); anomaly(21, fd); }   // a descriptor the library never opened
+  else if(++it->second > 1) anomaly(22, fd);                                           // closed twice
   if(err) { errno = err; return -1; }
   return 0;
 }
